@@ -598,24 +598,26 @@ PROPS["C06"]["harness"] = list(PROPS["C06"]["harness"]) + [("RD", "C03"), ("BIG"
 
 # ---- additions to the generators made while testing with seeded changes (appended to the `rule` texts of the evidence) ----
 _EXTRA_RULES = {
-    "C01": " Also: twin fields whose Avro names differ only in case; blocks with more records than bytes (zero-width records, 1500 identical tiny records); slices of boundary lengths (63..65, 127, 128, 4095..4097, 8192); pointer chains ending in collections; the zero instant in a non-UTC zone; the destination handed to ReadFile is, for half the cases, a pointer to a struct pre-filled with an earlier record; records are collected and examined only after ReadFile has returned (banks closed afterwards); large-block files (BIG). Rounds 8-9: ONE reused variable is passed to every Encode call; single-f64 records; records examined after ReadFile returns.",
+    "C01": " Also: twin fields whose Avro names differ only in case; blocks with more records than bytes (zero-width records, 1500 identical tiny records); slices of boundary lengths (63..65, 127, 128, 4095..4097, 8192); pointer chains ending in collections; the zero instant in a non-UTC zone; the destination handed to ReadFile is, for half the cases, a pointer to a struct pre-filled with an earlier record; records are collected and examined only after ReadFile has returned (banks closed afterwards); large-block files (BIG). Rounds 8-9: ONE reused variable is passed to every Encode call; single-f64 records; records examined after ReadFile returns. Round 10: blocks of 63, 64, 65, 127, 128, 129 distinct records.",
     "C02": " Also the recorded writes of the real Encoder / FileWriter (ENC9 stream, judged by the specification-side header and block reader) incl. the scenario two-destinations; boundary slice lengths; twin case-variant fields. Round 10: stream fwd (fault-free direct WriteHeader / WriteBlock histories incl. empty blocks: the specification-side block reader reads the recorded bytes as exactly the blocks written - C02b.direct_container_valid).",
     "C03": " Also: null as field / item / map-value type, general unions with a null branch in any position, narrow integer targets for general unions, unions of 65/70/130 distinct named fixed types (branches 0, 1, 63, 64, 65, last), time-typed fields in a third of the cases; every bank is returned to the pool after the value has been dumped (later cases decode into recycled banks); large-block files (BIG). Rounds 8-9: zero-width arrays systematically, three *[40]byte targets from one bank, null-valued wide maps on a recycled bank.",
     "C05": " Also: the schema-named field inside an embedded struct that is not at offset 0; well-formed multi-block arrays with growing / shrinking block sizes (plain and size-prefixed); schemas referring to an earlier record by name; non-canonical boolean bytes (a bool holding a byte other than 0/1 is reported).",
     "C06": " Also: the C18 malformed-timestamp stream, the RD stream of valid encodings and the BIG stream run under C06; block counts that overflow the slice length after earlier blocks (every tier); len > cap check on every decoded slice (also on the error path); mal-soak: one small record decoded 200000 times with banks closed at once, steady-state allocation must stay below 1 MiB + n/4 bytes. Rounds 8-9: damaged MAP counts as a role of their own (mcount), selectors equal to the branch count, negative / overflowing fixed and block sizes on the Skip path, values around 1<<21, repeated-decode soak; panics are never attributed to D14.",
-    "C07": " Also: combined mutation cbflip (callback failure at the first / last record of a block whose marker has a flipped bit); every other read gets a pointer to a pre-filled destination struct.",
+    "C07": " Also: combined mutation cbflip (callback failure at the first / last record of a block whose marker has a flipped bit); every other read gets a pointer to a pre-filled destination struct. Round 10: the source alternates default bufio / 16-byte buffer over a half-reader (every multi-byte read is short) / 37-byte buffer.",
     "C09": " Also: 63..129 records per block, the scenario two-destinations (one FileWriter, two headers, interleaved blocks).",
-    "C10": " Also: every other string operation uses a content that depends on the length only (equal strings recur within and across bank uses); every fourth fileretain case stops the read by a callback error after retaining the record.",
+    "C10": " Also: every other string operation uses a content that depends on the length only (equal strings recur within and across bank uses); every fourth fileretain case stops the read by a callback error after retaining the record. Round 10: fileretain with strings, byte slices and map keys of 64 KiB and more; op timeretain (instant, offset and zone name of retained time.Time values).",
     "C11": " Also: allocation-order shapes (a pointer-free 8-byte value first, then pointer-carrying slots), mode bigmap (thousands of entries, GC percent 1), mode filedrop (records retained, banks dropped without Close, finalizer sentinel, pooled banks scribbled over, more decoding); the records of a file hold two different datums in the pattern d1,d2,d2,d1. Round 9: on every other record the ReadFile callback forces collections and examines the record before copying it.",
     "C12": " Also: op 9 (file whose records mostly allocate nothing, selective closing, retained records), callbacks that close their bank and return an error, goroutines renaming their own SchemaForType results, regstorm (8 goroutines x 250 registrations of distinct types, each used at once).",
     "C14": " Also: every document is read as the avro.schema entry of a container header through FileSchema (twice, the first result edited by the caller in between); the slice returned by the previous Marshal is re-checked after the next call.",
-    "C15": " Also: a registered union with null last, unnamed registered types ([]T, map[string]T), double registration, determinism probes (registry before/after, schema twice, caller renaming its result in between), Schema.Codec called with a pointer, a typed nil pointer and a value.",
+    "C15": " Also: a registered union with null last, unnamed registered types ([]T, map[string]T), double registration, determinism probes (registry before/after, schema twice, caller renaming its result in between), Schema.Codec called with a pointer, a typed nil pointer and a value. Round 10: zoo type ZUnicode (non-ASCII exported / unexported field names); nesting depths 31..70.",
     "C16": " Also: injected error kinds (plain, Timeout()-typed, joined with os.ErrDeadlineExceeded), blocks above 64 KiB and 128 KiB, 63..129 records per block, a recording writer with a Flush() method. Round 9: stream fwd and scenario direct-blocks-fault (FileWriter driven directly: WriteHeader, WriteBlock with row counts 0..3 incl. empty blocks; failure at every write index and one past the end, 0 or 1 bytes accepted).",
-    "C17": " Also: Skip of every built integer codec on every valid and malformed varint (op int-s).",
+    "C17": " Also: Skip of every built integer codec on every valid and malformed varint (op int-s). Round 10: every other write goes into a WriteBuf that already holds 1-7 bytes (codecs append; the earlier bytes must stay).",
     "C18": " Also: the library's string-codec route decodes every case from one reused backing array; an invalid neighbour (month before, day + 32) is parsed immediately before every third valid date-only string.",
     "C19": " Also: every decode case decodes the value twice into a struct with two *time.Time fields; every long-w case writes the value through a [null, T] field too. Round 8: every date-w case writes the value through a [null, date] field too.",
     "C20": " Also: maps of up to four entries; histories [user registration for time.Time / null.Int, the library package's RegisterCodecs again]; scenarios c20x (a user registration for one library type must survive the other library package's RegisterCodecs). Round 9: custom types registered under array and map schemas.",
-    "C13": " Rounds 8-9: null-typed positions outside unions (Go zero value there); every fifth case zero-heavy (most fields omitempty, every second scalar zero).",
+    "C13": " Rounds 8-9: null-typed positions outside unions (Go zero value there); every fifth case zero-heavy (most fields omitempty, every second scalar zero). Round 10: every other write goes into a WriteBuf that already holds bytes; string / bytes lengths at the varint steps (63..65, 127, 128, 8191..8193).",
+    "C08": " Round 10: op big-cut (first block above the reader's 1 MiB chunk, cut at payloadStart + k*2^20 + {-1,0,1} and every block edge); the source alternates default bufio / 16-byte buffer over a half-reader / 37-byte buffer.",
+    "C04": " Round 10: string / bytes lengths at the varint steps in every value generator.",
 }
 for _p, _t in _EXTRA_RULES.items():
     PROPS[_p]["rule"] = PROPS[_p].get("rule", "") + _t
